@@ -199,7 +199,7 @@ class Cluster:
         script = self.coordinator_script.get(g)
         if script:
             a = script.pop(0)
-            if a != "ok":
+            if a != "ok" and a != 0:
                 return {"error": a, "coordinator_id": -1, "host": b"", "port": -1}
         n = self.coordinator.get(g, min(self.brokers))
         h, p = self.brokers[n]
